@@ -408,6 +408,7 @@ def ipv4_prefixed_regname(s):
 # ----------------------------------------------------------------------------- the check
 def run(ctx):
     tier = ctx.tier
+    vlib.bad_done_stage(ctx, "c20_buf.cpp", "c20_buf", "URI reference delivered in pieces differs from memory_input", "buf")
     ctx.trusted_base = vlib.default_trusted_base() + [
         "harness/c20_describe.hpp: maximum_rule< U, Max > dumped as an opaque leaf + (node, bits, maximum) roots; UriModel.evalx interprets it by Integer.maximum_rule",
         "driver/c20_driver.ml compares implementation verdicts with the extracted model / verified matcher and prints the disagreements",
@@ -602,6 +603,8 @@ def classify(ctx, R, workdir, oracle):
 def replay(j):
     """bin/check --replay <file>: run the stored input on the current tree and re-evaluate the oracle"""
     r = j["replay"]
+    if r.get("mode") == "buf":
+        return vlib.replay_bad_done("C20", "c20_buf.cpp", "c20_buf", "URI reference delivered in pieces differs from memory_input", "buf")
     impl = vlib.build_cpp([os.path.join(vlib.VERIF, "harness", "c20_impl.cpp")], "c20_impl", flags=["-O1"])
     driver = vlib.build_ocaml("ExtractC20", "c20_driver.ml", "c20_driver")
     d = tempfile.mkdtemp(prefix="c20r-", dir=vlib.BUILD)
